@@ -274,6 +274,45 @@ def _assigned_names(stmts: list[ast.stmt]) -> set[str]:
     return out
 
 
+def _leaving_only_names(stmts: list[ast.stmt]) -> set[str]:
+    """Names that the loop body assigns *only* in suites that end by leaving the loop (break / return / raise as last statement,
+    no `continue` inside): their new value never reaches a further iteration nor the loop's normal completion."""
+    leaving: set[str] = set()
+    staying: set[str] = set()
+
+    def block(b: list[ast.stmt], leaves: bool):
+        ends = bool(b) and isinstance(b[-1], (ast.Break, ast.Return, ast.Raise)) and not any(isinstance(n, ast.Continue) for x in b for n in ast.walk(x))
+        here = leaves or ends
+        for x in b:
+            if isinstance(x, (ast.FunctionDef, ast.AsyncFunctionDef, ast.ClassDef)):
+                staying.add(x.name)
+                continue
+            if isinstance(x, (ast.Assign, ast.AugAssign, ast.AnnAssign, ast.Delete, ast.Expr, ast.Return, ast.Raise, ast.Break, ast.Pass)):
+                (leaving if here else staying).update(_assigned_names([x]))
+            elif isinstance(x, (ast.For, ast.While, ast.AsyncFor)):
+                # a nested loop: its own break does not leave the outer loop; be conservative
+                staying.update(_assigned_names([x])) if not here else leaving.update(_assigned_names([x]))
+            elif isinstance(x, ast.If):
+                (leaving if here else staying).update(_assigned_names([ast.Expr(x.test)]))
+                block(x.body, here)
+                block(x.orelse, here)
+            elif isinstance(x, (ast.With, ast.AsyncWith)):
+                (leaving if here else staying).update({n.id for it in x.items if it.optional_vars is not None for n in ast.walk(it.optional_vars) if isinstance(n, ast.Name)})
+                block(x.body, here)
+            elif isinstance(x, ast.Try):
+                for sub in (x.body, x.orelse, x.finalbody):
+                    block(sub, here)
+                for h in x.handlers:
+                    if h.name:
+                        (leaving if here else staying).add(h.name)
+                    block(h.body, here)
+            else:
+                (leaving if here else staying).update(_assigned_names([x]))
+
+    block(stmts, False)
+    return leaving - staying
+
+
 def _stored_attrs(stmts: list[ast.stmt]) -> set[str]:
     out: set[str] = set()
     for s in stmts:
@@ -587,7 +626,8 @@ class Enumerator:
         if may_complete:
             sa = st1.fork()
             sa.evs.append(L)
-            self._havoc(sa, names, attrs, f"after{tag}")
+            # names assigned only on the way out of the loop keep their value from before the loop when it completes normally
+            self._havoc(sa, names - _leaving_only_names(node.body), attrs, f"after{tag}")
             exits = [(sa, False)] if exit_test is None else self.branch(exit_test, sa)
             for se, truth in exits:
                 if isinstance(truth, tuple):
